@@ -359,6 +359,7 @@ func runC15(e *Engine, r *Report) {
 	// chunks travel in frames whose payload checksum gates delivery (decided by C13's rule set)
 	borrow(e, r, "C13", "VAL-frame")
 	borrow(e, r, "C16", "ERR-refusal")
+	borrow(e, r, "C10", "ERR-soft-pairs")
 	ruleChunkKeyInjective(e, r)
 	ruleChunkCountSource(e, r)
 	ruleChunkDataLoad(e, r)
